@@ -11,7 +11,10 @@ META = {
             "and emits the token-kind sequence of each, which must equal what the REAL lexer emits on the concretised string; every such "
             "string, and TLC-generated well-typed programs to which the check applies one seeded byte-level mutation (truncate at any byte, delete/duplicate/swap a token, "
             "insert a class byte, unbalance a bracket/quote/slash, nest an expression up to 300 deep, a 3000-byte regex), is compiled twice by "
-            "the real compiler: exactly one of object / non-empty error list, no panic, identical result, within the deadline.",
+            "the real compiler: exactly one of object / non-empty error list, no panic, identical result, within the deadline; two directed "
+            "families: capture groups whose NAMES collide with their neighbours' numbers or names, each text compiled 41 times (same "
+            "bytecode every time), and decorator definition/use arrangements, one process per text (a compile that kills the process is "
+            "attributed to its text).",
     "note": "Totality over ALL byte strings is not a model-checking question: exhaustive only for short class strings, sampled beyond; "
             "memory safety and pathological regex compile times are covered only through the inputs tried (deadline 20 s, observed worst case recorded).",
     "technique": "TLA+ lexer automaton with TLC-exhaustive progress check; every enumerated string, and seeded mutants of TLC-generated programs, replayed into the real lexer/compiler",
